@@ -134,6 +134,7 @@ type histEnv struct {
 	keyIds map[string]int
 	txs    []fs_db.Tx // handle number -> tx (index 0 unused)
 	shas   map[[32]byte]uint64
+	closed bool // closed by "closedb", to be opened again at its next use
 }
 
 func (e *histEnv) open() error {
@@ -403,6 +404,12 @@ func histMain(path, mode string) int {
 	defer closeAll()
 	getEnv := func(n int) (*histEnv, error) {
 		if e, ok := envs[n]; ok {
+			if e.h == nil && e.closed {
+				e.closed = false
+				if oerr := e.open(); oerr != nil {
+					return e, oerr
+				}
+			}
 			return e, nil
 		}
 		dir := filepath.Join(base, strconv.Itoa(n))
@@ -478,7 +485,8 @@ func histMain(path, mode string) int {
 				} else {
 					fmt.Fprintln(out, "ok")
 				}
-				delete(envs, inst)
+				e.h = nil
+				e.closed = true
 			} else {
 				fmt.Fprintln(out, "ok")
 			}
